@@ -431,7 +431,18 @@ fn run_child(text: &str) -> String {
     }
 }
 
+/// Pass-through link observer: every frame is delivered unchanged.  (Installed so that the run does not
+/// depend on what the verification hook in elvis-core does when no observer is present.)
+struct PassThrough;
+impl elvis_core::network::verif::Observer for PassThrough {
+    fn on_send(&self, _frame: &elvis_core::network::verif::FrameInfo) -> elvis_core::network::verif::FrameFate {
+        elvis_core::network::verif::FrameFate::Deliver
+    }
+    fn on_delivery(&self, _frame: &elvis_core::network::verif::FrameInfo, _tap: Option<elvis_core::network::Mac>) {}
+}
+
 fn child_main(path: &str) {
+    elvis_core::network::verif::install(std::sync::Arc::new(PassThrough));
     let rt = tokio::runtime::Builder::new_current_thread()
         .enable_all()
         .start_paused(true)
